@@ -2,7 +2,7 @@
 import ast
 
 from py2lean_types import (Unsupported, Impure, TInt, TBool, TStr, TNone, TRange, TErased, TList, TOpt, TTuple,
-                           TDict, TObj, TAbs, TExc, TUnion, TVar, THet, INT, BOOL, STR, NONE, RANGE, ERASED,
+                           TDict, TObj, TAbs, TExc, TUnion, TVar, THet, TBuilder, INT, BOOL, STR, NONE, RANGE, ERASED,
                            resolve, unify, join, coerce, proj, iter_elem)
 from py2lean_expr import src, indent, TyRef, lstr
 
@@ -171,6 +171,17 @@ class CallMixin:
             m = getattr(self, "b_" + f.id, None)
             if m is not None:
                 return m(e, env, k)
+            if f.id in self.reg.builders:                   # an object that is built by commands: start its log
+                b = self.reg.builders[f.id]
+                self.args_no_kw(e, len(b["ctor"]))
+                keep = [(a, t) for a, t in zip(e.args, b["ctor"]) if not isinstance(t, TErased)]
+                bt = TBuilder(f.id, [t for _, t in keep], b["command"], b["args"])
+
+                def fin_b(vs):
+                    cs = [coerce(c, t, kt) for (c, t), (_, kt) in zip(vs, keep)]
+                    ctor = cs[0] if len(cs) == 1 else "(" + ", ".join(cs) + ")"
+                    return k("({}, ([] : List {}))".format(ctor, bt.cmd_ty().lean()), bt)
+                return self.exprs([a for a, _ in keep], env, fin_b)
             if f.id in self.reg.classes:                    # constructor of a translated class
                 return self.call_function(self.reg.init_of(f.id), None, e, env, k)
             fn = self.reg.functions.get(f.id)
